@@ -17,8 +17,8 @@ import vlib  # noqa: E402
 
 PROP = "C07"
 ENGINE = "ser"
-LEAN_TARGETS = ["H5V.Props.C07"]
-AUDIT_IMPORTS = ["H5V.Props.C07"]
+LEAN_TARGETS = ["H5V.Props.C07", "H5V.Props.C07RT"]
+AUDIT_IMPORTS = ["H5V.Props.C07", "H5V.Props.C07RT"]
 THEOREMS = ["H5V.Props.C07." + t for t in [
     # write_escaped: the byte loop with its index arithmetic = a structural byte function, never panics
     "C07_write_escaped_eq",
@@ -38,6 +38,9 @@ THEOREMS = ["H5V.Props.C07." + t for t in [
     "C07_current_write_escaped", "C07_current_inner_outer", "C07_current_scope_raw",
     # history: the pinned snapshot (Cfg.pinned) and its defects
     "C07_pinned_write_escaped", "C07_pinned_inner_outer", "C07_pinned_void_children",
+    # the round trip through tokenizer and tree builder (Props/C07RT.lean), for every ordinary forest
+    "C07_serialize_ordinary", "C07_tb_roundtrip", "C07_tb_roundtrip_whole", "C07_tok_roundtrip", "C07_tok_roundtrip_merged",
+    "C07_roundtrip", "C07_witness_leading_bom", "exForest_ordinary", "exForest_noBom",
 ]]
 TRUSTED = [
     "Lean 4 kernel; axioms ⊆ {propext, Classical.choice, Quot.sound} (audited per run)",
@@ -46,7 +49,10 @@ TRUSTED = [
     "str::as_bytes modelled by core Lean's String.utf8EncodeChar; memchr2/memchr3 modelled as first-index search",
     "the reader `unescape` (H5V/Spec/HtmlEscape.lean) is a hand-written abstraction of the tokenizer's data / "
     "attribute-value(double-quoted) states restricted to the five references the serializer emits; the full "
-    "round trip through tokenizer and tree builder is checked on the real code only (rt= oracle), not proved",
+    "C07_roundtrip: vocabulary = names without an in-body rule of their own + the plain block elements + properly nested "
+    "formatting elements (not a, nobr); exact_errors off; text given as characters (UTF-8 decoding is C10); hypothesis "
+    "noLeadingBom (known finding C07-leading-bom). Outside that vocabulary (p, headings, li, option, a, nobr ...) the round "
+    "trip is checked on the real code only (rt= oracle)",
     "the python reference serializer in this file (standard's fragment serialisation + the code's documented "
     "treatment of void elements) used as oracle for the bytes written",
 ]
@@ -397,6 +403,9 @@ def oracle(line, out):
             # the harness re-serialises the children with ChildrenOnly(Some(div)); invalid UTF-8 can
             # only come from a dropped lead byte
             return "%s; seen through the round trip (serialised children are not UTF-8)" % D1
+        if rt == "diff-default-bom":
+            return ("leading-bom: with the default TokenizerOpts (discard_bom = true) parse_fragment drops the U+FEFF that "
+                    "starts the serialisation; the same text parsed with discard_bom = false reproduces the tree")
         if rt != "ok":
             return "round trip: parse_fragment(serialize(children)) differs from the tree (rt=%s)" % rt
     return None
@@ -418,6 +427,7 @@ KNOWN_MATCHERS = {
     "C07-D1": lambda f: (f.detail or "").startswith("D1 "),
     "C07-D2": lambda f: (f.detail or "").startswith("D2 "),
     "C07-D3": lambda f: (f.detail or "").startswith("D3 "),
+    "C07-leading-bom": lambda f: f.kind == "oracle" and (f.detail or "").startswith("leading-bom:"),
 }
 
 # ----------------------------------------------------------------------------- generators
@@ -692,6 +702,9 @@ def gen_ordinary(cases, rng, n):
                     same = [E("h", f, [], same), E("h", "div", [], [("T", "d%d" % j)])]
                 t = E("h", "div", [], [E("h", f, [], same), ("T", "z")])
                 cases.append((mk_tree("I", 0, 0, t), "ordinary-fmt"))
+    # known finding C07-leading-bom: a text that starts the serialisation with U+FEFF (and controls: not at the start)
+    for forest in ([("T", "\ufeffa")], [("T", "\ufeff")], [("T", "a\ufeffb")], [E("h", "span", [], [("T", "\ufeffx")]), ("T", "\ufeff")]):
+        cases.append((mk_tree("I", 1, 0, E("h", "div", [], forest)), "ordinary-bom"))
     # every ordinary name once, with the boundary strings
     for name in ORDINARY + FORMATTING:
         t = E("h", "div", [], [E("h", name, [("0", None, "a", '<>&" \'')], [("T", "<>&\" '")]), ("T", "t")])
